@@ -103,6 +103,7 @@ def run_case(driver, seed, part, i, res, forced=None):
     t_noise = r.choice([0.001, 0.01, 0.02, 0.035, 0.05, 0.08, 0.12])
     # a caller in keep-trying mode hands the driver a frame the gateway cannot carry: refused at once, lock untouched
     unsupported = driver in ("tridonic", "hasseb") and forced is None and r.random() < 0.2
+    early = forced is None and r.random() < 0.25
     extra = {}
     # loud: send() reports the loss to its caller (CommunicationError) instead of retrying - the lock must be given up all the same
     loud = loss and r.random() < 0.35
@@ -177,6 +178,25 @@ def run_case(driver, seed, part, i, res, forced=None):
         return await d.run_sequence(gens[c])
 
     async def main(sim):
+        if early:
+            # callers that arrive before the gateway is connected are refused; the refusal leaves nothing behind
+            from dali.gear.general import QueryStatus as _QS, DAPC as _DAPC
+            from dali import address as _A2
+            d0 = sim.driver
+            for form in ("send", "seq", "send"):
+                def one():
+                    yield _DAPC(_A2.GearShort(2), 9)
+                try:
+                    if form == "send":
+                        await asyncio.wait_for(d0.send(_QS(_A2.GearShort(1))), 5.0)
+                    else:
+                        await asyncio.wait_for(d0.run_sequence(one()), 5.0)
+                    extra.setdefault("early", []).append("returned")
+                except BaseException as e:  # noqa - whatever the refusal looks like
+                    extra.setdefault("early", []).append(type(e).__name__)
+            res.hit("refused_before_connect")
+            extra["early_lock_left_held"] = d0.transaction_lock.locked()
+            extra["early_wire"] = len(sim.bus.wire)
         await sim.connect()
         if loss:
             sim.driver.exceptions_on_send = loud
@@ -257,6 +277,10 @@ def run_case(driver, seed, part, i, res, forced=None):
                         "cancel_at": s["cancel_at"], "cancel_time": s["cancel_time"], "badclean": s["badclean"], "start": s["start"]} for s in callers],
            "wire": [(hex(w["value"]), t) for w, t in zip(wire, tags)][:60], "picks": picker.log[:50], "loss": (t_loss if loss else None)}
     try:
+        if extra.get("early_lock_left_held"):
+            res.violation(f"C15/{driver}/refused-before-connect/lock-left-held", "callers that were refused before the gateway was "
+                          f"connected ({extra.get('early')}) left the transaction lock held", wit)
+            return
         if stalled:
             res.violation(f"C15/{driver}/caller-never-completes", "the simulation stalled: some caller is blocked for ever "
                           f"(outcomes so far {({c: repr(v) for c, v in outcome.items()})})", wit)
@@ -380,6 +404,8 @@ def run_case(driver, seed, part, i, res, forced=None):
         res.hit("lock_checked")
         if sim.driver.transaction_lock.locked():
             res.violation(f"C15/{driver}/lock-not-released", "transaction_lock is still held after every caller has finished", wit)
+        if getattr(sim, 'hostile_calls', 0):
+            res.hit('hostile_listener_runs')
         if sim.loop.errors:
             res.violation(f"C15/{driver}/internal-error", f"exception in a callback/task: {sim.loop.errors[0]}", wit)
         for c, x in outcome.items():
